@@ -290,6 +290,7 @@ func checkEnvWalk(p *Prog, l *Ledger, which string, fn *ssa.Function) {
 		return
 	}
 	m := NewInterpModel(p, construct)
+	m.Unroll = 3 // a helper that walks the chain by calling itself is unrolled like the loop it is
 	params := []AV{Sym("e"), Sym("name")}
 	key := "name"
 	if which == "Assign" {
@@ -326,6 +327,14 @@ func checkEnvWalk(p *Prog, l *Ledger, which string, fn *ssa.Function) {
 				return "looked|" + cur + "|" + ps[2]
 			case "backedge":
 				return s
+			case "niltest":
+				// a walk that accepts a nil scope (nil-receiver helper): nil here is the end of the chain
+				if ev.Args[0] == cur {
+					if ev.Out == "nil" {
+						return "end|" + cur + "|" + ps[2]
+					}
+					return s
+				}
 			}
 			return "!expected the scope's own table to be consulted first, found " + ev.String()
 		case "looked":
@@ -338,6 +347,18 @@ func checkEnvWalk(p *Prog, l *Ledger, which string, fn *ssa.Function) {
 			return "!unexpected " + ev.String() + " after the table lookup"
 		case "hit":
 			switch ev.Op {
+			case "niltest":
+				if ev.Args[0] == cur && ev.Out == "nonnil" {
+					return s // the caller of a lookup helper testing the scope it got back
+				}
+			case "maplookup":
+				if ev.Args[0] == cur+".Values" && ev.Args[1] == key {
+					return s // reading the binding again in the scope that was found
+				}
+			case "has":
+				if ev.Out == "true" {
+					return s
+				}
 			case "mapstore":
 				if which != "Assign" || ev.Args[0] != cur+".Values" || ev.Args[1] != key || ev.Args[2] != "value" {
 					return "!" + ev.String() + ": an existing binding must be updated in the scope that holds it, under its own name, with the given value"
@@ -374,6 +395,10 @@ func checkEnvWalk(p *Prog, l *Ledger, which string, fn *ssa.Function) {
 			return "!after a miss the enclosing scope must be tested next, found " + ev.String()
 		case "up":
 			switch ev.Op {
+			case "niltest":
+				if ev.Args[0] == cur+".Parent" && ev.Out == "nonnil" {
+					return s
+				}
 			case op: // recursive form
 				if ev.Args[0] != cur+".Parent" || ev.Args[1] != "name" || (which == "Assign" && ev.Args[2] != "value") {
 					return "!the recursion is " + ev.String() + ", expected the same operation on exactly " + cur + ".Parent with the same arguments"
@@ -402,6 +427,10 @@ func checkEnvWalk(p *Prog, l *Ledger, which string, fn *ssa.Function) {
 			return "!unexpected " + ev.String() + " after delegating to the enclosing scope"
 		case "end":
 			switch ev.Op {
+			case "niltest":
+				if ev.Out == "nil" {
+					return s
+				}
 			case "rterror":
 				if which != "Assign" {
 					return "!Get reports a runtime error itself"
@@ -571,7 +600,11 @@ func callResults(pi *pathInfo) []string {
 	var out []string
 	for _, e := range pi.events {
 		if e.Op == "append" && len(e.Args) == 2 {
-			out = append(out, resolveDesc(pi.desc, e.Args[1]))
+			if x, ok := pi.appended[e]; ok {
+				out = append(out, x)
+			} else {
+				out = append(out, resolveDesc(pi.desc, e.Args[1]))
+			}
 		}
 	}
 	// results that were parsed but never appended
